@@ -524,6 +524,14 @@ func c09ClosedEarly(rt *rapid.T) {
 			}
 		}
 	}
+	// until their final responses arrive all N requests are unanswered - also the ones the library has completed early,
+	// whose ids are still in use on the wire: a further send is refused
+	if f := reqFrame(client.ManagedStreamId); true {
+		if _, err := h.Enqueue(f); err == nil {
+			rt.Fatalf("N=%d maxPending=%d: with all %d requests unanswered (%d of them completed early by %s, their final responses still to come) a further managed send was accepted with stream id %d",
+				n, maxPending, n, early, map[bool]string{true: "timeout", false: "overflow"}[byTimeout], f.Header.StreamId)
+		}
+	}
 	// every request's final response arrives (the early-completed ones may refuse the frame; their id must be freed anyway)
 	order := rapid.Permutation(reqs).Draw(rt, "finalOrder")
 	for k, e := range order {
@@ -557,3 +565,95 @@ func c09ClosedEarly(rt *rapid.T) {
 }
 
 func TestC09ClosedEarly(t *testing.T) { rapid.Check(t, c09ClosedEarly) }
+
+// "Once a request's final response has arrived its id is assignable again": a caller that has just received the final
+// response of its request sends the next one at once - with all ids in use until then (N = 1 or 2 requests in a
+// ping-pong), that send must never be refused. The responder runs on another goroutine, so the window between handing the
+// response to the request and giving the id back (if there were one) is open while the caller reacts.
+func c09PingPong(rt *rapid.T) {
+	rec := stats.For("C09")
+	n := rapid.IntRange(1, 2).Draw(rt, "N")
+	iters := rapid.IntRange(200, 1500).Draw(rt, "iterations")
+	poll := rapid.Bool().Draw(rt, "poll")
+	ctx, cancel := context.WithCancel(context.Background())
+	defer cancel()
+	h := client.NewVerifInFlight(ctx, n, 4, time.Hour)
+	defer h.Close()
+	toAnswer := make(chan int16, n)
+	done := make(chan struct{})
+	go func() {
+		defer close(done)
+		k := 0
+		for id := range toAnswer {
+			k++
+			_ = h.Deliver(finalFrameV(id, 0, k))
+		}
+	}()
+	fail := ""
+	send := func(i int) client.InFlightRequest {
+		f := reqFrame(client.ManagedStreamId)
+		r, err := h.Enqueue(f)
+		if err != nil {
+			fail = fmt.Sprintf("N=%d iteration %d: send refused (%v) although the caller holds the final response of every earlier request but %d", n, i, err, n-1)
+			return nil
+		}
+		toAnswer <- f.Header.StreamId
+		return r
+	}
+	var window []client.InFlightRequest
+	for k := 0; k < n-1; k++ { // n-1 requests stay outstanding, the n-th slot is the ping-pong
+		if r := send(-1); r != nil {
+			window = append(window, r)
+		}
+	}
+	for i := 0; i < iters && fail == ""; i++ {
+		r := send(i)
+		if r == nil {
+			break
+		}
+		window = append(window, r)
+		oldest := window[0]
+		window = window[1:]
+		// wait for the final response of the oldest request: busy polling or a blocking receive
+		got := false
+		deadline := time.Now().Add(10 * time.Second)
+		for !got {
+			if poll {
+				select {
+				case _, ok := <-oldest.Incoming():
+					got = ok
+					if !ok {
+						fail = fmt.Sprintf("iteration %d: request closed without its response: %v", i, oldest.Err())
+						got = true
+					}
+				default:
+					if time.Now().After(deadline) {
+						fail = fmt.Sprintf("iteration %d: no response within 10 s", i)
+						got = true
+					}
+				}
+			} else {
+				select {
+				case _, ok := <-oldest.Incoming():
+					got = true
+					if !ok {
+						fail = fmt.Sprintf("iteration %d: request closed without its response: %v", i, oldest.Err())
+					}
+				case <-time.After(10 * time.Second):
+					fail = fmt.Sprintf("iteration %d: no response within 10 s", i)
+					got = true
+				}
+			}
+		}
+	}
+	close(toAnswer)
+	<-done
+	if fail != "" {
+		rt.Fatalf("%s", fail)
+	}
+	rec.Case(true, stats.HashString(fmt.Sprintf("pingpong/%d/%d/%v", n, iters, poll)), func() string {
+		return fmt.Sprintf("ping-pong: N=%d, %d iterations, poll=%v: every send right after a final response was accepted", n, iters, poll)
+	}, "ping-pong")
+}
+
+func TestC09PingPong(t *testing.T) { rapid.Check(t, c09PingPong) }
